@@ -198,8 +198,91 @@ def run_ctxraise(case):
         case["when"], case["nest"], case["handler"], case["sibling"])}
 
 
+def cancel_case(na, nb, handler, with_error):
+    return {"special": "cancel", "na": na, "nb": nb, "handler": handler, "with_error": with_error}
+
+
+def run_cancel(case):
+    """C05: 'never flushes an ... already flushed/cancelled batch'.  A batch that tasks are already blocked on is
+    cancelled by a sibling task (cancel() is not in the machine's language; judged by a direct expectation): the
+    scheduler must not flush it (no before/after events, no flush body, no BatchingError), the blocked tasks receive the
+    cancellation error at their yield, the other batch is flushed normally."""
+    import asynq
+    from asynq import batching
+
+    log = []
+
+    class B(batching.BatchBase):
+        def __init__(self, name):
+            batching.BatchBase.__init__(self)
+            self.name = name
+
+        def _try_switch_active_batch(self):
+            if cur[self.name] is self:
+                cur[self.name] = B(self.name)
+
+        def _flush(self):
+            log.append("body-" + self.name)
+            for it in self.items:
+                it.set_value(it.payload)
+
+    class I(batching.BatchItemBase):
+        def __init__(self, name, payload):
+            batching.BatchItemBase.__init__(self, cur[name])
+            self.payload = payload
+
+    cur = {}
+    cur["A"] = B("A")
+    cur["B"] = B("B")
+    boom = ValueError("cancelled by user")
+
+    @asynq.asynq()
+    def waiter(i):
+        return (yield I("A", i))
+
+    @asynq.asynq()
+    def canceller():
+        batch = cur["A"]
+        if case["with_error"]:
+            batch.cancel(boom)
+        else:
+            batch.cancel()
+        vals = yield [I("B", j) for j in range(case["nb"])]
+        return sum(vals)
+
+    @asynq.asynq()
+    def root():
+        futs = [waiter.asynq(i) for i in range(case["na"])] + [canceller.asynq()]
+        if case["handler"]:
+            try:
+                yield futs
+            except Exception as e:
+                ok = (e is boom) if case["with_error"] else isinstance(e, batching.BatchCancelledError)
+                return "handled" if ok else "handled-" + type(e).__name__
+            return "no-error"
+        yield futs
+        return "no-error"
+
+    asynq.scheduler.reset()
+    sched = asynq.scheduler.get_scheduler()
+    sched.on_before_batch_flush.subscribe(lambda b: log.append("before-" + b.name))
+    sched.on_after_batch_flush.subscribe(lambda b: log.append("after-" + b.name))
+    try:
+        out = root()
+    except BaseException as e:
+        ok = (e is boom) if case["with_error"] else isinstance(e, batching.BatchCancelledError)
+        out = "raised-cancel" if ok else "raised-" + type(e).__name__
+    clean = 1 if (len(sched._tasks) == 0 and sched.active_task is None) else 0
+    asynq.scheduler.reset()
+    lines = ["(case cancelfam %d %d %d %d %d)" % (case["id"], case["na"], case["nb"], case["handler"], case["with_error"]),
+             "(result %s %d (%s))" % (out, clean, " ".join(log)), "(end)"]
+    return {"lines": lines, "features": ["cancel"], "nontrivial": "cancel-%d-%d-%d-%d" % (case["na"], case["nb"], case["handler"], case["with_error"])}
+
+
 def run_case_for(pid, case):
     from corerun import run_program
+    if case.get("special") == "cancel":
+        return run_cancel(case)
     if case.get("special") == "chain":
         return run_chain(case)
     if case.get("special") == "ctxraise":
